@@ -50,11 +50,12 @@ def harness(chunk, arch="msgpack"):
 
 
 def media_for(s, media, arch):
-    """Text archives: the in-memory entry point takes UTF-8 without BOM; other encodings only travel through streams."""
+    """Text archives: the in-memory entry point takes UTF-8 (with or without a BOM: a file read into a string keeps its BOM);
+    the other encodings only travel through streams."""
     if arch == "msgpack":
         return media
     m = s.get("meta", {})
-    if m.get("enc", "utf8") == "utf8" and not m.get("bom"):
+    if m.get("enc", "utf8") == "utf8":
         return media
     return [x for x in media if x != "mem"]
 
